@@ -10,7 +10,7 @@ import numpy as np
 LEVEL = "exploration"
 TECHNIQUE = "post-condition / relation monitors on the real transforms vs a direct O(N^2) DFT and closed forms"
 LEVEL_TEXT = ("Every length N = 1..33 (odd and even) plus primes / powers of two up to 1024, batch shapes, dtypes and spacings over six "
-              "decades are pushed through both export paths; identities are checked to FFT rounding. Exhaustive in N only up to the "
+              "decades are pushed through both export paths; identities are checked to FFT rounding. Spacings given in narrow float types (float16 / float32 scalars up to the end of their range) must give the finite 1-D transforms of their value. Exhaustive in N only up to the "
               "bound; exploration otherwise.")
 LEVEL_NOTE = ("Trusted: the O(N^2) reference DFT in this file, NumPy arithmetic. Odd-length round trip of the real variants cannot work "
               "through the present API (no length argument) and is a recorded known finding.")
